@@ -45,6 +45,7 @@ type Violation struct {
 }
 
 type Exec struct {
+	panicAt string // call stack of the last modelled range-check panic
 	prog    *ssa.Program
 	tt      *TermTable
 	solver  *Solver
@@ -1074,9 +1075,9 @@ func (e *Exec) binop(op token.Token, x, y Value, xt types.Type) Value {
 		}
 		switch op {
 		case token.ADD:
-			return e.tt.BVBin("bvadd", a, b, sg)
+			return e.exactSum(e.tt.BVBin("bvadd", a, b, sg), a, b, "+")
 		case token.SUB:
-			return e.tt.BVBin("bvsub", a, b, sg)
+			return e.exactSum(e.tt.BVBin("bvsub", a, b, sg), a, b, "-")
 		case token.MUL:
 			return e.tt.BVBin("bvmul", a, b, sg)
 		case token.QUO, token.REM:
